@@ -54,9 +54,9 @@ type c16Default struct {
 // default values of every literal kind
 var c16Defaults = []c16Default{
 	{nil, ""},
-	{&ast.Value{Raw: "7", Kind: ast.IntValue}, "7"},
-	{&ast.Value{Raw: "s\"q", Kind: ast.StringValue}, `"s\"q"`},
 	{&ast.Value{Raw: "null", Kind: ast.NullValue}, "null"},
+	{&ast.Value{Raw: "s\"q", Kind: ast.StringValue}, `"s\"q"`},
+	{&ast.Value{Raw: "7", Kind: ast.IntValue}, "7"},
 	{&ast.Value{Raw: "false", Kind: ast.BooleanValue}, "false"},
 	{&ast.Value{Raw: "RED", Kind: ast.EnumValue}, "RED"},
 	{&ast.Value{Raw: "1.5", Kind: ast.FloatValue}, "1.5"},
